@@ -155,13 +155,12 @@ Proof. reflexivity. Qed.
 Theorem C10_total_locktime : forall fallback inputs w, locktime_p fallback inputs <> Panic w.
 Proof. exact locktime_p_total. Qed.
 
-(* TaprootBuilder (F16, repaired by c723f02): finalize never panics, on API-built and on serde-built states alike; API-built states
-   have their last slot filled (C15's invariant), and there finalize is the function of Model/Taproot.v *)
+(* TaprootBuilder (F16, repaired by c723f02): finalize (Model/Taproot.finalize) never panics for ANY builder state, serde-built ones
+   included; API-built states moreover have their last slot filled (C15's invariant) *)
 Theorem C10_total_finalize : forall b s, finalize_p b <> Taproot.Panic s.
 Proof. exact finalize_p_total. Qed.
-Theorem C10_builder_inv : forall items b, api_builder items = Taproot.Ok b ->
-  (b = [] \/ exists n r, b = Some n :: r) /\ finalize_p b = Taproot.finalize triv (fun _ => true) (fun _ _ => Some ([], false)) b [].
-Proof. intros items b R. pose proof (run_head_some triv triv items b R) as H. split; [exact H|exact (finalize_p_is_taproot b H)]. Qed.
+Theorem C10_builder_inv : forall items b, api_builder items = Taproot.Ok b -> b = [] \/ exists n r, b = Some n :: r.
+Proof. intros items b R. exact (run_head_some triv triv items b R). Qed.
 Example C10_finalize_serde_state : finalize_p [None] = Taproot.Fail IncompleteTree.
 Proof. reflexivity. Qed.
 
